@@ -472,12 +472,71 @@ def run(ctx, tier, seed, shard, nshards):
     core.run_hypothesis(test, seed, n)
     if shard == 0:
         repr_reentry(ctx)
+        container_limits(ctx)
     if shard == 0:
         directed(ctx, collected)
     run_workers(ctx, collected)
 
 
+def container_limits(ctx, only=None):
+    """Every container kind reprlib knows (list, tuple, set, frozenset, dict, deque, array) at sizes around the limits, as
+    an argument and as the value of a call, under the DEFAULT representation (icontract.aRepr: 50 items per container, 256
+    characters per string / other object - the values the package declares and documents) and under an own a_repr with a
+    limit of 3 for every kind: the value line equals what an independently configured reprlib.Repr renders. x role."""
+    import array
+    import collections
+    import reprlib
+    import icontract
+
+    def ref_repr(limit, long_):
+        r = reprlib.Repr()
+        for name in ("maxlist", "maxtuple", "maxset", "maxfrozenset", "maxdict", "maxdeque", "maxarray"):
+            setattr(r, name, limit)
+        r.maxstring = r.maxother = long_
+        return r
+
+    makers = {
+        "list": list, "tuple": tuple, "set": set, "frozenset": frozenset, "dict": lambda xs: {x: x for x in xs},
+        "deque": collections.deque, "array": lambda xs: array.array("i", xs),
+    }
+    for kind, mk in sorted(makers.items()):
+        for size in (2, 7, 30, 50, 51, 90):
+            for own in (False, True):
+                key = [kind, size, own]
+                if only is not None and only != key:
+                    continue
+                value = mk(range(100, 100 + size))
+                want_repr = ref_repr(3, 40) if own else ref_repr(50, 256)
+                kwargs = {"a_repr": ref_repr(3, 40)} if own else {}
+                ident = lambda v: v  # noqa
+
+                @icontract.require(lambda v: len(ident(v)) < 0, "too-long", **kwargs)
+                def f(v):
+                    return v
+
+                try:
+                    f(value)
+                    msg = "no violation"
+                except icontract.ViolationError as e:
+                    msg = str(e)
+                lines = msg.splitlines()
+                want = ["ident(v) was " + want_repr.repr(value), "len(ident(v)) was %d" % size, "v was " + want_repr.repr(value)]
+                got = [ln for ln in lines if " was " in ln]
+                ctx.case(["container-limit"] + key, size > 6, sample={"directed": "%s of %d items, %s a_repr" % (kind, size, "own" if own else "default"),
+                                                                      "line": (got or [""])[-1][:80]})
+                ctx.count("directed:container-limits")
+                if got != want:
+                    ctx.fail("(5)container-limit|%s|%s" % (kind, "own" if own else "default"), {"container_limit": key},
+                             "%s of %d items under the %s representation: expected the value lines %r, got %r" % (
+                                 kind, size, "contract's own (3 items per container)" if own else "default (50 items per container)", want, got))
+
+
 def replay(ctx, case):
+    if case.get("container_limit"):
+        before = ctx.evaluations
+        container_limits(ctx, only=case["container_limit"])
+        ctx.evaluations = before + 1
+        return
     if case.get("repr_reentry"):
         before = ctx.evaluations
         repr_reentry(ctx)
